@@ -12,11 +12,7 @@ Local Open Scope Z_scope.
 Definition fcode (f : option finding) : Z :=
   match f with
   | None => 0
-  | Some F_fetch_star => 2 | Some F_fetch_comma => 3
-  | Some F_fetch_star_first => 4 | Some F_fetch_reversed => 5 | Some F_fetch_beyond => 6
-  | Some F_search_star => 8 | Some F_search_comma => 9
-  | Some F_search_star_first => 10 | Some F_search_reversed => 11 | Some F_search_beyond => 12
-  | Some F_search_huge => 13 | Some F_uidsearch_shape => 14
+  | Some F_uidsearch_shape => 14
   | Some F_noop_notices => 17
   end.
 
@@ -43,16 +39,16 @@ Definition case_seq (s : str) (n : Z) (got : list Z) (ast : option seqset) : Z :
 Definition case_uid (s : str) (uids got : list Z) (ast : option seqset) : Z :=
   pack (zlist_eqb (parse_uidset_db s uids) got) (with_ast ast true (fun a => uidset_ok a uids got))
        (ast_print_ok ast s) None.
-Definition case_match (tok : str) (i : Z) (got_is got_match : bool) : Z :=
-  pack (Bool.eqb (is_sequence_set tok) got_is && Bool.eqb (matches_sequence_set i tok) got_match) true true None.
+Definition case_match (tok : str) (i largest : Z) (got_is got_match : bool) : Z :=
+  pack (Bool.eqb (is_sequence_set tok) got_is && Bool.eqb (matches_sequence_set i tok largest) got_match) true true None.
 
 (** sessions *)
 Definition case_fetch (s : str) (uids : list Z) (got : option (list (Z * Z))) (ast : option seqset) : Z :=
   pack (opt_eqb zpairs_eqb (fetch_inline s uids) got) (with_ast ast true (fun a => fetch_ok a uids got))
-       (ast_print_ok ast s) (with_ast ast None (fun a => classify_fetch a (Z.of_nat (length uids)))).
+       (ast_print_ok ast s) None.
 Definition case_search (s : str) (n : Z) (got : list Z) (ast : option seqset) : Z :=
   pack (zlist_eqb (search_set s n) got) (with_ast ast true (fun a => search_ok a n got))
-       (ast_print_ok ast s) (with_ast ast None (fun a => classify_search a n)).
+       (ast_print_ok ast s) None.
 Definition case_uidsearch (s : str) (uids got : list Z) (ast : option seqset) : Z :=
   pack (zlist_eqb (uidsearch_set s uids) got) (with_ast ast true (fun a => uidsearch_ok a uids got))
        (ast_print_ok ast s) (with_ast ast None classify_uidsearch).
@@ -176,3 +172,11 @@ Definition case_session (steps : list ostep) : Z :=
              {| a_last := 0; a_cnt := None; a_view := []; a_model := true; a_count := true; a_list := true;
                 a_cls := None; a_noop := false |} in
   b2z (a_model a) + 2 * b2z (a_count a) + 4 * b2z (a_list a) + 8 * sfcode (a_cls a) + 32 * b2z (a_noop a).
+
+(** SEARCH UID <set> (evaluateTokens, case "UID": matchesUIDSet with msg.maxUID):
+    sequence numbers of the messages whose UID is in the set *)
+Definition case_searchuid (s : str) (uids got : list Z) (ast : option seqset) : Z :=
+  let rows := label_from 1 uids in
+  pack (zlist_eqb (map fst (filter (fun p => matches_sequence_set (snd p) s (max_uid_of uids)) rows)) got)
+       (with_ast ast true (fun a => zlist_eqb got (map fst (filter (fun p => denote a (max_uid uids) (snd p)) rows))))
+       (ast_print_ok ast s) None.
